@@ -325,13 +325,24 @@ class C08(Prop):
                           # the property bounds the time from the handler's quit request; how long the signal takes to reach the
                           # handler is not bounded by it, so a debounce window is allowed for (the filter must not stop it, though)
                           "slack_ms": 1000 if "--debounce=1s" in args else 0, "no_command": "--only-emit-events" in args})
+        for cc in cli + oscli:
+            cc["m"] = list(cc["m"])
+        c.absorb(confirm_realtime(self.judge_c, cli + oscli))
+        return c
+
+    def judge_c(self, cases, procs):
+        """C: the CLI's own quit handling (in-process instance of the CLI's action handler, simulated and real OS signals)"""
+        c = Corr()
+        cli = [x for x in cases if x["events"][0]["k"] != "os_signal"]
+        oscli = [x for x in cases if x["events"][0]["k"] == "os_signal"]
         try:
-            cobs = run_parallel("h_cli", "onbusy", cli, "c08c", procs=8)
-            cobs += run_parallel("h_cli", "onbusy", oscli, "c08cos", procs=len(oscli))
+            cobs = run_parallel("h_cli", "onbusy", cli, "c08c", procs=min(8, procs)) if cli else []
+            if oscli:
+                cobs += run_parallel("h_cli", "onbusy", oscli, "c08cos", procs=len(oscli))
         except RuntimeError as e:
             c.errors.append(str(e))
             return c
-        cli += oscli
+        cli = cli + oscli
         terms = []
         for cc in cli:
             sigs, mapped, sq, eof, args = cc["m"]
@@ -348,7 +359,7 @@ class C08(Prop):
         for cc, o, m in zip(cli, cobs, cres):
             c.evaluations += 1
             c.count("C:cli-os-signal" if cc["events"][0]["k"] == "os_signal" else "C:cli")
-            brief = {"args": cc["args"], "event": cc["events"][0], "child": cc["child_script"]}
+            brief = {"id": cc["id"], "args": cc["args"], "event": cc["events"][0], "child": cc["child_script"]}
             if "error" in o:
                 c.errors.append(f"h_cli: {o['error']}")
                 continue
@@ -454,7 +465,10 @@ class C08(Prop):
                     c.failing.append({"case": brief, "impl": {"alive_group_members": sorted(gs)},
                                       "clause": "C08: a member of the command's process group survived the graceful quit",
                                       "klass": "group-straggler" if known else None})
-                if bool(gs) != want_group and not any(m["group"] == "?" for m in ms_) and not s["same_action"]:   # (a child signalled at birth has not forked yet)
+                # with a zero grace period the leader's exit on the stop signal and the kill of the group at expiry fall on the same instant
+                # (a tie in the model's virtual time; in real time the kill usually wins): either outcome is accepted
+                tie = s["qgrace"] == 0 and any(jb["forker"] for jb in s["jobs"])
+                if bool(gs) != want_group and not any(m["group"] == "?" for m in ms_) and not s["same_action"] and not tie:   # (a child signalled at birth has not forked yet)
                     ok = False
                     c.disagreements.append({"case": brief, "impl": {"alive_group_members": sorted(gs)}, "model": ms_, "what": "group survivors"})
             if ok:
